@@ -114,6 +114,9 @@ func fromJval(j jval) (interface{}, error) {
 var c03ElemKeys = []string{"a", "b", "c", "item", "k", "list", "sub", "d-e", "K", "x_y", "data"}
 var c03AttrNames = []string{"id", "x", "n", "d-e", "K", "x_y"}
 var c03Strs = []string{"", " u ", "  ", "x", "hello world", "1", "true", "l1\nl2", "\ttab", "é€", "y", "2.5", "x ", " lead"}
+
+// strings that need escaping AND contain multi-byte characters (only used when XMLEscapeChars is on)
+var c03MixedStrs = []string{"Café & Crème", "日本 <語>", "é\"€'", "a&é"}
 var c03Specials = []string{"<&>\"'", "a&amp;b", "]]>", "a<b", "x & y", "'q'", "say \"hi\"", " <t> ", "&"}
 var c03Ints = []int{0, 1, -7, 42, 1234567890123, 12}
 var c03Floats = []float64{2.5, -0.75, 1e21, 3, 1e-7, 123456789.125, 0, -12}
@@ -132,6 +135,9 @@ type g3 struct {
 
 func (g *g3) str() string {
 	if g.esc && g.r.chance(0.3) {
+		if g.r.chance(0.25) {
+			return g.r.pick(c03MixedStrs)
+		}
 		return g.r.pick(c03Specials)
 	}
 	return g.r.pick(c03Strs)
